@@ -25,6 +25,8 @@ import Ldap3V.Gen.Oids
 import Ldap3V.Lemmas.CodecsReq
 import Ldap3V.Lemmas.CodecsResp
 import Ldap3V.Lemmas.CodecsEnvelope
+import Ldap3V.Lemmas.CodecsReadEntry
+import Ldap3V.Props.C15
 namespace Ldap3V
 open Spec Codecs
 
@@ -228,6 +230,65 @@ theorem C19_readEntry_resp_partial (t : Tlv) (bs : Bytes) (he : Enc t bs) (hd : 
     (hl : bs.length < 18446744073709551616) : parseReadEntryOuter bs = .ok t :=
   readEntry_resp t bs he hd hl
 
+/-- `ReadEntryResp::parse` is `SearchEntry::construct` after `parse_tag`, for EVERY tree `t` the
+parser accepts (depth ≤ 64), every definite-length encoding `bs` of it and whatever follows it
+(`rest`: the code ignores bytes after the first element): the result is the panic of `construct`,
+or the two maps of the `SearchEntry` it returns.  With this, every C15 theorem about `construct`
+(`C15_panic_set`, `C15_duplicates_characterised`, `C15_lenient_shapes`, …) is a theorem about the
+Pre/PostRead response parser. -/
+theorem C19_readEntry_resp_is_construct (t : Tlv) (bs rest : Bytes) (he : Enc t bs)
+    (hd : t.depth ≤ maxDepth) (hl : (bs ++ rest).length < 18446744073709551616) :
+    parseReadEntryResp (bs ++ rest) =
+      (match construct t with
+       | .panic => .panic
+       | .ok se => .ok { text := se.text, bin := se.bin }) := by
+  rw [readEntryResp_enc t bs rest he hd hl]
+  cases construct t <;> rfl
+
+/-- Pre/PostRead response, RFC 4527 §3.1 / §3.2: the control value is a BER-encoded
+SearchResultEntry.  For every well-formed entry `e` (C15's `WFEntry`: DN and attribute types valid
+UTF-8, attribute types pairwise distinct), every definite-length encoding `bs` of
+`entryTlv e = [APPLICATION 4] SEQUENCE { objectName, attributes }` (any mixture of short / long /
+redundant length forms) and any trailing bytes, `ReadEntryResp::parse` returns a struct `r` whose
+two maps satisfy exactly the clauses of `C15_construct`: an attribute all of whose values are valid
+UTF-8 is in `attrs` with exactly its values in order and not in `bin_attrs`; any other attribute is
+not in `attrs` and `bin_attrs` holds a permutation of its values; the maps have no other keys and no
+key is in both.  The last conjunct is the literal composition: `r` is made of the maps of the
+`SearchEntry` that `C15_construct` speaks about (whose `dn` is the entry's).
+
+The entry's DN is NOT part of the result: the Rust struct `ReadEntryResp { attrs, bin_attrs }` has
+no field for it, the `dn` of the constructed `SearchEntry` is dropped (the DN still has to be valid
+UTF-8, otherwise `construct` panics: `C19_readEntry_resp_panics`).
+
+Hypotheses: `h` — outside `ValidNames` the parser panics; with repeated attribute types the maps are
+those of `C15_duplicates_characterised` (via `C19_readEntry_resp_is_construct`).  `hl` — the value
+fits a `usize`. -/
+theorem C19_readEntry_resp (e : Entry) (h : WFEntry utf8Valid e) (bs rest : Bytes)
+    (he : Enc (entryTlv e) bs) (hl : (bs ++ rest).length < 18446744073709551616) :
+    ∃ r, parseReadEntryResp (bs ++ rest) = .ok r ∧
+      (∀ a vals, (a, vals) ∈ e.attrs →
+        (vals.all utf8Valid = true → r.text.lookup a = some vals ∧ r.bin.lookup a = none) ∧
+        (¬ vals.all utf8Valid = true → r.text.lookup a = none ∧
+            ∃ l, r.bin.lookup a = some l ∧ l.Perm vals)) ∧
+      (∀ a, a ∈ r.text.keys ∨ a ∈ r.bin.keys → a ∈ e.attrs.map (·.1)) ∧
+      (∀ a, ¬ (a ∈ r.text.keys ∧ a ∈ r.bin.keys)) ∧
+      ∃ se, construct (entryTlv e) = .ok se ∧ se.dn = e.dn ∧ r = { text := se.text, bin := se.bin } := by
+  obtain ⟨se, hc, hdn, h1, h2, h3⟩ := C15_construct e h
+  refine ⟨{ text := se.text, bin := se.bin }, ?_, h1, h2, h3, se, hc, hdn, rfl⟩
+  rw [readEntryResp_entry e bs rest he hl, hc]
+  rfl
+
+/-- … and outside: a DN or an attribute type that is not valid UTF-8 (RFC 4511 makes them UTF-8
+strings; the code `expect`s it), or a value that does not begin with a BER element, panics
+(documented caller-side behaviour of `RawControl::parse`).  The exact panic set over all trees is
+`C15_panic_set` through `C19_readEntry_resp_is_construct`. -/
+theorem C19_readEntry_resp_panics (e : Entry) (bs rest : Bytes) (hl : (bs ++ rest).length < 18446744073709551616) :
+    (Enc (entryTlv e) bs → ¬ ValidNames utf8Valid e → parseReadEntryResp (bs ++ rest) = .panic) ∧
+    ((∀ t r, parseTag bs ≠ .ok t r) → parseReadEntryResp bs = .panic) := by
+  refine ⟨fun he hv => ?_, readEntryResp_unparsable bs⟩
+  rw [readEntryResp_entry e bs rest he hl, C15_invalid_names_panic e hv]
+  rfl
+
 /-- RFC 4532 §2.2: the response value is the authzId (UTF-8) itself; a non-UTF-8 value panics. -/
 theorem C19_whoAmI_resp (bs : Bytes) :
     (utf8Valid bs = true → parseWhoAmIResp bs = .ok bs) ∧
@@ -273,7 +334,7 @@ theorem C19_endTxnResp_rfc_layout_panics (pre : List Tlv) (sz : Bytes) (ctrls : 
   endTxnResp_rfc_layout pre sz ctrls bs he hd hl
 
 /-- `RawControl::parse` / `Exop::parse` on a control or response without a value -/
-theorem C19_absent_value_panics {α : Type} (p : Bytes → Outcome α) : parseVal p none = .panic := rfl
+theorem C19_absent_value_panics {α : Type} (p : Bytes → Codecs.Outcome α) : parseVal p none = .panic := rfl
 
 /-! ## control lists -/
 
@@ -345,6 +406,41 @@ example : Codecs.Spec.SyncInfoTlv (.syncIdSet none true [[0x61], [0x62]])
 example : Codecs.Spec.SyncDoneTlv ⟨some [7], false⟩ (.cons 0 16 [.prim 0 4 [7], .prim 0 1 [0]]) ∧
     parseSyncDone [0x30, 0x06, 0x04, 0x01, 7, 0x01, 0x01, 0x00] = .ok ⟨some [7], false⟩ :=
   ⟨⟨[.prim 0 1 [0]], Or.inr ⟨[0], ⟨0, rfl, rfl⟩, rfl⟩, rfl⟩, by decide⟩
+
+/-- Pre/PostRead response: entry "a" with the text attribute `t = ["x", "é"]` and the binary
+attribute `b = [FF]`; the value is the minimal encoding of its SearchResultEntry followed by two
+stray bytes.  `attrs` gets `t`, `bin_attrs` gets `b`, the DN is not in the struct. -/
+def exReadEntry : Entry :=
+  { dn := [0x61], attrs := [([0x74], [[0x78], [0xC3, 0xA9]]), ([0x62], [[0xFF]])] }
+
+example : WFEntry utf8Valid exReadEntry := by decide
+example : Enc (entryTlv exReadEntry)
+    [0x64, 0x1d, 0x04, 0x01, 0x61, 0x30, 0x18,
+      0x30, 0x0c, 0x04, 0x01, 0x74, 0x31, 0x07, 0x04, 0x01, 0x78, 0x04, 0x02, 0xC3, 0xA9,
+      0x30, 0x08, 0x04, 0x01, 0x62, 0x31, 0x03, 0x04, 0x01, 0xFF] ∧
+    ([0x64, 0x1d, 0x04, 0x01, 0x61, 0x30, 0x18,
+      0x30, 0x0c, 0x04, 0x01, 0x74, 0x31, 0x07, 0x04, 0x01, 0x78, 0x04, 0x02, 0xC3, 0xA9,
+      0x30, 0x08, 0x04, 0x01, 0x62, 0x31, 0x03, 0x04, 0x01, 0xFF] ++ [0x00, 0x00] : Bytes).length
+      < 18446744073709551616 := by
+  refine ⟨?_, by decide⟩
+  have h := enc_encode (entryTlv exReadEntry) (by
+    simp [exReadEntry, entryTlv, attrTlv, valueTlv, WF, WFList, encodeList, encode, encType, encLen])
+  have e : encode (entryTlv exReadEntry) = [0x64, 0x1d, 0x04, 0x01, 0x61, 0x30, 0x18,
+      0x30, 0x0c, 0x04, 0x01, 0x74, 0x31, 0x07, 0x04, 0x01, 0x78, 0x04, 0x02, 0xC3, 0xA9,
+      0x30, 0x08, 0x04, 0x01, 0x62, 0x31, 0x03, 0x04, 0x01, 0xFF] := by decide
+  rwa [e] at h
+example : parseReadEntryResp
+    ([0x64, 0x1d, 0x04, 0x01, 0x61, 0x30, 0x18,
+      0x30, 0x0c, 0x04, 0x01, 0x74, 0x31, 0x07, 0x04, 0x01, 0x78, 0x04, 0x02, 0xC3, 0xA9,
+      0x30, 0x08, 0x04, 0x01, 0x62, 0x31, 0x03, 0x04, 0x01, 0xFF] ++ [0x00, 0x00]) =
+    .ok { text := [([0x74], [[0x78], [0xC3, 0xA9]])], bin := [([0x62], [[0xFF]])] } := by decide
+/-- both clauses of the theorem are exercised: `t` is all-text, `b` is not -/
+example : ([0x74], [[0x78], [0xC3, 0xA9]]) ∈ exReadEntry.attrs ∧
+    List.all [[0x78], [0xC3, 0xA9]] utf8Valid = true ∧
+    ([0x62], [[0xFF]]) ∈ exReadEntry.attrs ∧ ¬ (List.all [[0xFF]] utf8Valid = true) := by decide
+/-- the panic branch: DN `FF` -/
+example : parseReadEntryResp [0x64, 0x05, 0x04, 0x01, 0xFF, 0x30, 0x00] = .panic ∧
+    parseReadEntryResp [0x64, 0x05, 0x04] = .panic := by decide
 
 /-- PasswordModify with user and new password; all absent: value omitted -/
 example : encPasswordModify ⟨some [0x61], none, some [0x62]⟩ =
